@@ -159,6 +159,8 @@ def close(a, b, rel, atol=0.0):
 
 
 def check_oracle(case):
+    if not fc.in_domain(case):
+        return None
     obs = fc.run_case(case, observe_result=True)
     if obs.get("exn_type") == "RuntimeError":
         return None
@@ -265,11 +267,13 @@ def search(ctx, suspects, budget):
         n += 1
         why = check_oracle(case)
         if why:
-            small = fc.shrink_case(case, lambda c: check_oracle(c) is not None)
+            first = fc.signature(why)
+            small = fc.shrink_case(case, lambda c: fc.signature(check_oracle(c)) == first)
             why = check_oracle(small) or why
-            if why[:25] in seen:
+            sig = fc.signature(why)
+            if sig in seen:
                 continue
-            seen.add(why[:25])
+            seen.add(sig)
             out.append(Violation(ID, "fit", small, why))
     ctx.notes.append("oracle: {} fit results recomputed with numpy-free code".format(n))
     return out
